@@ -22,7 +22,8 @@ EXPLANATION = (
     " BUDGET: the parser's per-thread nesting budget guard charges only on the granted edge and its token's Drop gives the unit back (acceptance does not depend on earlier refusals)."
     " R5-look: a token's negative look-ahead over punctuation excludes nothing the following operand can begin with (FIRST sets over the reconstructed grammar)."
     ' R4-ctor case-fold: keyword operators the grammar matches without regard to case are looked up case-folded by the tree constructor.'
-    ' R5-blank also covers character-class parsers (digit1 ..) used directly as tokens of an expression rule.')
+    ' R5-blank also covers character-class parsers (digit1 ..) used directly as tokens of an expression rule.'
+    ' Keyword helpers end their token with a negative look-ahead (word boundary), not a positive requirement of filler.')
 RULE_TEXT = ("instances = (level, spelling) pairs, alt groups, token parsers, constructor arms; non-trivial = "
              "those needing a table comparison or dominance/shape argument")
 TRUSTED = ["nom ordered-choice/many0 semantics as documented", "rustc MIR construction", "milu/readme.md table is the documented grammar"]
@@ -358,15 +359,22 @@ def ctor_fns(prog):
     return out
 
 
+POSITIVE_KEYWORD_LOOKS = {}
+
+
 def detect_param_token_rules(rule_fns):
     """h(text: &str) whose body is  tag(text)  followed by look-aheads only (at least one): a token with a word boundary"""
     PARAM_TOKEN_RULES.clear()
+    POSITIVE_KEYWORD_LOOKS.clear()
     for name, f in rule_fns.items():
         if f.arg_count == 1 and "str" in f.ty(f.locals[1]["ty"])["s"]:
             g = peg(et.build_local(f, 0))
             parts = g[1] if g[0] == "seq" else [g]
             if len(parts) >= 2 and parts[0] == ("unknown", "token with non-literal argument") and all(x[0] == "look" for x in parts[1:]):
                 PARAM_TOKEN_RULES.add(name)
+                # a word boundary says what must NOT follow (another identifier character); a helper that says what MUST follow
+                # (`peek(blank)`) makes a blank between the keyword and its operand mandatory: `if(a) then ..` stops parsing
+                POSITIVE_KEYWORD_LOOKS[name] = [x for x in parts[1:] if len(x) > 2 and x[2] == "peek"]
 
 
 def run(chk, prog):
@@ -386,6 +394,14 @@ def run(chk, prog):
     pegs = {}
     has_ws = {}
     detect_param_token_rules(rule_fns)
+    for hn, looks in sorted(POSITIVE_KEYWORD_LOOKS.items()):
+        okk = not looks
+        chk.instance("R5-look", rule_fns[hn].file, "keyword helper %s ends its token with a negative look-ahead (a word boundary)" % hn, okk)
+        if not okk:
+            chk.finding("R5-look", P + hn, "keyword-needs-filler", "", "%s:%d" % (rule_fns[hn].file, rule_fns[hn].line),
+                        "keyword helper %s requires something to follow the keyword (a positive look-ahead) instead of excluding identifier "
+                        "characters: `if(a) then b else c`, `if!a ..`, `let;` stop parsing although a blank between two tokens is optional "
+                        "everywhere else - whitespace between tokens changes the result" % hn)
     detect_wrapper_rules(prog, rule_fns)
     CT = ctor_fns(prog)
     for name, f in rule_fns.items():
